@@ -23,10 +23,10 @@ LEVEL = "model_checking"
 ASSUMPTIONS = ["histories of depth <= 2 (quick) / 4 (thorough) over an alphabet of ~10 public calls; data sets X1 (5x2) and X2 (7x3)"]
 
 SPECS = {
-    "LinearModel": [{}, {"gemini": "wasserstein_ova", "batch_size": 2}], "LinearMMD": [{"kernel": "rbf_g"}, {"kernel": "pre_psd"}],
+    "LinearModel": [{}, {"gemini": "wasserstein_ova", "batch_size": 2}, {"batch_size": 2, "_mlcl": True}], "LinearMMD": [{"kernel": "rbf_g"}, {"kernel": "pre_psd"}],
     "LinearWasserstein": [{"ovo": True}], "RIM": [{"batch_size": 3}], "KernelRIM": [{}, {"base_kernel": "rbf_g", "batch_size": 2}],
-    "MLPModel": [{}, {"gemini": "mi", "batch_size": 2}], "MLPMMD": [{"ovo": True}], "MLPWasserstein": [{"metric": "l1"}],
-    "SparseLinearModel": [{"alpha": 0.3}, {"alpha": 0.3, "dynamic": True, "batch_size": 2}], "SparseLinearMMD": [{"alpha": 0.3, "groups": [[0, 1]]}, {"alpha": 0.3, "groups": [[1]]}],
+    "MLPModel": [{}, {"gemini": "mi", "batch_size": 2}, {"batch_size": 3, "_mlcl": True}], "MLPMMD": [{"ovo": True}], "MLPWasserstein": [{"metric": "l1"}],
+    "SparseLinearModel": [{"alpha": 0.3}, {"alpha": 0.3, "dynamic": True, "batch_size": 2}, {"alpha": 0.3, "batch_size": 2, "_mlcl": True}], "SparseLinearMMD": [{"alpha": 0.3, "groups": [[0, 1]]}, {"alpha": 0.3, "groups": [[1]]}],
     "SparseLinearMI": [{"alpha": 0.3}, {"alpha": 0.0}], "SparseMLPModel": [{"alpha": 0.3}], "SparseMLPMMD": [{"alpha": 0.3, "batch_size": 3}],
     "CategoricalModel": [{}], "CategoricalMMD": [{"kernel": "rbf"}], "CategoricalWasserstein": [{}],
     "Kauri": [{}, {"max_features": 1, "max_clusters": 4}, {"max_clusters": 6, "max_leaves": 9}], "Douglas": [{}, {"n_cuts": 2, "batch_size": 2}],
@@ -37,6 +37,17 @@ SET_EVENTS = {
     "Kauri": [("max_clusters", 2), ("min_samples_leaf", 2), ("max_depth", 1), ("random_state", 5)],
     "sparse": [("alpha", 0.05), ("alpha", 0.0)],
 }
+
+
+def _build(name, spec, X, seed):
+    """configs.build + optional must-link/cannot-link decoration (spec key _mlcl)."""
+    spec = dict(spec)
+    decorated = spec.pop("_mlcl", False)
+    m, y, e = C.build(name, spec, X, seed)
+    if decorated:
+        from gemclus import add_mlcl_constraint
+        m = add_mlcl_constraint(m, [(0, 1)], [(2, 3), (1, 4)], 0.5)
+    return m, y, e
 
 
 def _digest_state(obj):
@@ -143,17 +154,21 @@ def history_search(case):
 
     X3 = seams.tiny_data(5, 2, seed + 72) * 2.0          # same shape as X1, other values (stale caches keyed by shape)
 
+    decorated = bool(spec.get("_mlcl"))
+
     def fresh(overrides=None):
-        m, y1, _ = C.build(name, spec, X1, seed)
-        _, y2, _ = C.build(name, spec, X2, seed)
+        m, y1, _ = _build(name, spec, X1, seed)
+        _, y2, _ = _build(name, spec, X2, seed)
         if overrides:
             m.set_params(**overrides)
         return m, y1, y2
     m0, y1, y2 = fresh()
-    y3 = None if y1 is None else C.build(name, spec, X3, seed + 1)[1]
+    y3 = None if y1 is None else _build(name, spec, X3, seed + 1)[1]
     D = {"X1": X1, "X2": X2, "X3": X3, "y1": y1, "y2": y2, "y3": y3}
     pristine = {k: (None if v is None else v.copy()) for k, v in D.items()}
-    events = [("fit1",), ("fit2",), ("fit3",), ("fit_predict1",), ("predict1",), ("score1",), ("clone",)]
+    events = [("fit1",), ("fit2",), ("fit3",), ("fit_predict1",), ("predict1",), ("score1",)]
+    if not decorated:
+        events.append(("clone",))        # clone() returns an undecorated estimator by construction
     if name != "Kauri":
         events.append(("proba1",))
         events += [("set",) + e for e in SET_EVENTS["gradient"]]
@@ -227,7 +242,7 @@ def history_search(case):
                 report("fitted_model_depends_on_history", {"history": hist, "differing_attributes": d}, attribute=d[0],
                        history_has_path=any(e[0] == "path1" for e in hist))
             # second fit on the same object and fit of a clone
-            c = clone(m)
+            c = clone(m) if not decorated else fresh(overrides)[0]
             if _params_repr(c) != _params_repr(m):
                 report("clone_does_not_round_trip_hyperparameters", {"history": hist, "clone": _params_repr(c), "original": _params_repr(m)})
             with warnings.catch_warnings():
@@ -304,14 +319,14 @@ def _iso_digests(name, si, seed, order):
         warnings.simplefilter("ignore")
         for tag in order:
             X = data[tag]
-            m, y, _ = C.build(name, spec, X, seed if tag == "X1" else seed + 1)
+            m, y, _ = _build(name, spec, X, seed if tag == "X1" else seed + 1)
             m.fit(X, y)
             out["fit:" + tag] = _digest_state(m) + "|" + repr(np.asarray(m.labels_).tolist())
             if hasattr(m, "predict_proba"):
                 out["proba:" + tag] = hashlib.blake2b(np.ascontiguousarray(m.predict_proba(X)).tobytes(), digest_size=8).hexdigest()
             out["score:" + tag] = repr(m.score(X, y))
             if name in M.SPARSE:
-                m2, y2, _ = C.build(name, spec, X, seed if tag == "X1" else seed + 1)
+                m2, y2, _ = _build(name, spec, X, seed if tag == "X1" else seed + 1)
                 try:
                     r = m2.path(X, y2, alpha_multiplier=3.0, min_features=1, max_patience=1)
                     out["path:" + tag] = repr([np.asarray(h, dtype=float).tolist() for h in r[1:]]) + _digest_state(m2)
